@@ -184,6 +184,14 @@ def exit_obligations(ex: Executor, c: Contract, env, pre):
             for name, text in c.ensures:
                 g = ex.spec_truth(st, text, env, f"{c.key}.ensures.{name}")
                 ex.oblige(st, f"{tag}.ensures.{name}", g, "ensures")
+            if c.result_is is not None:
+                want = ex.spec_eval(st, c.result_is, env, f"{c.key}.result_is")
+                ex.spec += 1
+                try:
+                    g = ex.equal(st, e.value, want)
+                finally:
+                    ex.spec -= 1
+                ex.oblige(st, f"{tag}.ensures.result_is", g, "ensures")
             ex.result = None
             # 3. frame
             frame_obligations(ex, st, pre, mod_locs, tag)
